@@ -31,8 +31,37 @@ def _dotted(node):
     return None
 
 
+SUMMARY = {'returns_set': set(), 'returns_dict_of_sets': set()}      # by bare function name (filled by a pre-pass)
+
+
+def _is_dict_of_sets_expr(node, dosnames):
+    if isinstance(node, ast.Call):
+        f = _dotted(node.func)
+        if f in ('defaultdict', 'collections.defaultdict') and node.args and _dotted(node.args[0]) in ('set', 'frozenset'):
+            return True
+        if f and f.split('.')[-1] in SUMMARY['returns_dict_of_sets']:
+            return True
+    if isinstance(node, ast.DictComp) and _is_set_expr(node.value, set()):
+        return True
+    if isinstance(node, ast.Dict) and node.values and all(_is_set_expr(v, set()) for v in node.values):
+        return True
+    if isinstance(node, ast.Name):
+        return node.id in dosnames
+    return False
+
+
+_DOS = set()      # names bound to dict-of-sets in the function being analysed
+
+
 def _is_set_expr(node, setnames):
     if isinstance(node, (ast.Set, ast.SetComp)):
+        return True
+    if isinstance(node, ast.Subscript) and _is_dict_of_sets_expr(node.value, _DOS):
+        return True
+    if isinstance(node, ast.Call) and isinstance(node.func, ast.Attribute) and node.func.attr in ('get', 'pop', 'setdefault') \
+            and _is_dict_of_sets_expr(node.func.value, _DOS):
+        return True
+    if isinstance(node, ast.Call) and _dotted(node.func) and _dotted(node.func).split('.')[-1] in SUMMARY['returns_set']:
         return True
     if isinstance(node, ast.Call):
         f = _dotted(node.func)
@@ -88,6 +117,30 @@ def analyse_file(path, rel):
         defaults_mutable = {a.arg for a, d in zip(fn.args.args[len(fn.args.args) - len(fn.args.defaults):], fn.args.defaults)
                             if isinstance(d, (ast.List, ast.Dict, ast.Set, ast.Call))}
         setnames = set()
+        _DOS.clear()
+        for node in ast.walk(fn):
+            if isinstance(node, (ast.Assign, ast.AnnAssign)):
+                tg = node.targets if isinstance(node, ast.Assign) else [node.target]
+                if node.value is not None and _is_dict_of_sets_expr(node.value, _DOS):
+                    for t in tg:
+                        if isinstance(t, ast.Name):
+                            _DOS.add(t.id)
+                for t in tg:
+                    if isinstance(t, ast.Subscript) and isinstance(t.value, ast.Name) and node.value is not None \
+                            and _is_set_expr(node.value, set()):
+                        _DOS.add(t.value.id)
+            if isinstance(node, ast.Call) and isinstance(node.func, ast.Attribute) and node.func.attr == 'setdefault' \
+                    and len(node.args) == 2 and isinstance(node.func.value, ast.Name) and _is_set_expr(node.args[1], set()):
+                _DOS.add(node.func.value.id)
+        for node in ast.walk(fn):
+            # values of a dict of sets, bound by a for loop over .values() / .items()
+            if isinstance(node, (ast.For, ast.comprehension)) and isinstance(node.iter, ast.Call) \
+                    and isinstance(node.iter.func, ast.Attribute) and _is_dict_of_sets_expr(node.iter.func.value, _DOS):
+                if node.iter.func.attr == 'values' and isinstance(node.target, ast.Name):
+                    setnames.add(node.target.id)
+                if node.iter.func.attr == 'items' and isinstance(node.target, ast.Tuple) and len(node.target.elts) == 2 \
+                        and isinstance(node.target.elts[1], ast.Name):
+                    setnames.add(node.target.elts[1].id)
         for node in ast.walk(fn):
             if isinstance(node, (ast.Assign, ast.AnnAssign)):
                 tgts = node.targets if isinstance(node, ast.Assign) else [node.target]
@@ -191,9 +244,40 @@ def analyse_file(path, rel):
     return findings, n_funcs, n_sites
 
 
+def _summaries(paths):
+    """Which functions return a set / a dict of sets (by bare name; two rounds so that wrappers are seen)."""
+    for _ in range(2):
+        for path in paths:
+            tree = ast.parse(open(path).read())
+            for fn in [n for n in ast.walk(tree) if isinstance(n, ast.FunctionDef)]:
+                setn, dosn = set(), set()
+                for node in ast.walk(fn):
+                    if isinstance(node, ast.Assign) and len(node.targets) == 1 and isinstance(node.targets[0], ast.Name):
+                        if _is_set_expr(node.value, setn):
+                            setn.add(node.targets[0].id)
+                        if _is_dict_of_sets_expr(node.value, dosn):
+                            dosn.add(node.targets[0].id)
+                for node in ast.walk(fn):
+                    if isinstance(node, ast.Return) and node.value is not None:
+                        if _is_set_expr(node.value, setn):
+                            SUMMARY['returns_set'].add(fn.name)
+                        if _is_dict_of_sets_expr(node.value, dosn):
+                            SUMMARY['returns_dict_of_sets'].add(fn.name)
+
+
 def analyse(roots):
     out = []
     n_funcs = 0
+    paths = []
+    for root in roots:
+        for dp, dn, fns in os.walk(root):
+            if any(x in dp for x in ('UnitTests', 'IntegrationTests', '__pycache__', 'Debug')):
+                continue
+            paths += [os.path.join(dp, fn) for fn in sorted(fns)
+                      if fn.endswith('.py') and not fn.startswith('test') and fn != 'conftest.py']
+    SUMMARY['returns_set'].clear()
+    SUMMARY['returns_dict_of_sets'].clear()
+    _summaries(paths)
     for root in roots:
         base = os.path.dirname(root)
         for dp, dn, fns in os.walk(root):
